@@ -982,7 +982,9 @@ def run_impl(case: dict) -> Tuple[List[str], List[dict]]:
                     res = "OOF"
                     dead = True
                 else:
-                    raise
+                    # any other exception out of the code under test is an ANSWER the model does not give (a violation with a replay),
+                    # not a crash of the check
+                    res = "EXC:" + type(e).__name__
             raw = rec.take()
             toks = []
             for e in raw:
@@ -994,6 +996,8 @@ def run_impl(case: dict) -> Tuple[List[str], List[dict]]:
                     toks.append(f"sw:{e[1]}:{id(e[2])}")
             if res == "OOF":
                 answers.append("OOF")
+            elif res.startswith("EXC:"):
+                answers.append(res)
             elif op["op"] in ("ping", "enable", "service", "recable") or (op["op"] == "power" and op["on"]):
                 answers.append(" ".join([res] + canon_events(toks)))
             else:
